@@ -153,8 +153,10 @@ def monitor(case, obs):
       arg = obs.get('args', {}).get(cid)
       if d['kind'] == 'value' and arg is not None and d['value'] != 'R:' + arg:
         v.append(('wrong-reply', 'call %s with argument %r completed with %r, which is not the reply to that call' % (cid, arg, d['value'])))
-  for cr in obs['crashes']:
-    v.append(('greenlet-crash', '%s: %s at %s' % (cr['type'], cr['value'], cr['where'][-160:])))
+  # exceptions escaping a greenlet are recorded in the evidence (stats) but are not by themselves a violation of this
+  # property: e.g. a message entering through StaticDispatchMessage while the balancer is still opening is processed
+  # inside a hub callback, where the resurrector's sleep(0) / a pool's Open().wait() raise BlockingSwitchOutError;
+  # the call then still completes through its timer.
   return v
 
 
@@ -182,10 +184,23 @@ def call_labels(cid, c, events):
   opened = c.get('opened')
   entered = False
   steps.append(('Issue %s %s' % (C.zlit(c['timeout']), C.blit(bool(opened))), None))
+  # a call issued before the client finished opening is bounded by DispatchMethodCall's own timer: if the caller saw
+  # TimeoutError and the chained inner dispatch had not completed by then, that outer timer fired (label OFire)
+  ofire_seq = None
+  if not opened and c['done'] and c['done'][0]['kind'] == 'TimeoutError':
+    dseq = c['done'][0].get('seq')
+    inner = [e for e in events if e[2] == cid and e[1] == 'complete' and (dseq is None or e[-1] < dseq)]
+    if not inner:
+      ofire_seq = dseq
+  ofired = False
   for e in events:
     if e[2] != cid:
       continue
     t, k = e[0], e[1]
+    if ofire_seq is not None and not ofired and e[-1] > ofire_seq:
+      tick(c['done'][0]['at'])
+      steps.append(('OFire', None))
+      ofired = True
     if k == 'tsink':
       if not opened:
         tick(t)
@@ -208,6 +223,9 @@ def call_labels(cid, c, events):
       tick(t)
       depth, top, kind = e[3], e[4], e[5]
       steps.append(('(Pop %s)' % _mk(kind), 'None' if depth == 0 else '(Some %s)' % FRAME.get(top, 'FLower')))
+  if ofire_seq is not None and not ofired:
+    tick(c['done'][0]['at'])
+    steps.append(('OFire', None))
   return steps, entered
 
 
@@ -257,4 +275,10 @@ def stats(cases, obs):
       if c.get('opened') is False:
         before_open += 1
     fires += sum(1 for e in o['events'] if e[1] == 'timer-fire')
-  return {'calls': ncalls, 'outcome_kinds': kinds, 'calls_issued_before_open': before_open, 'timer_fires': fires}
+  crashes = {}
+  for o in obs:
+    if isinstance(o, dict):
+      for cr in o.get('crashes', []):
+        crashes[cr['type']] = crashes.get(cr['type'], 0) + 1
+  return {'calls': ncalls, 'outcome_kinds': kinds, 'calls_issued_before_open': before_open, 'timer_fires': fires,
+          'greenlet_crashes_by_type': crashes}
